@@ -55,6 +55,15 @@ def kernel_case(rep, drv, spec):
 	full = drv.call('sim', **req)
 	init = simlib.canon_model({'trace': [full['init']], 'total': '0', 'orderSeq': [], 'shipSeq': [], 'orderOK': True})['trace'][0]
 	rep.case('order-kernel', spec, nontrivial=simstream.nontrivial(spec, py))
+	# hypotheses of orders_follow_policy_network / orders_follow_policy_network_ebs (Props/NetPolicy.lean, Props/NetEBS.lean), evaluated by the driver
+	for hyp in ('netWF', 'visitOK', 'allVisited', 'exoOK'):
+		ok = full.get(hyp, True)
+		rep.count('net-theorem-hypothesis-%s-%s' % (hyp, 'true' if ok else 'FALSE'))
+		if not ok:
+			rep.diff('order-kernel', 'hypothesis %s of the network-level policy theorems is false on this generated network: the theorems do not cover it' % hyp,
+					 spec, oracle=False, theorem='Props/NetPolicy.lean orders_follow_policy_network, Props/NetEBS.lean orders_follow_policy_network_ebs')
+	if any(nd['policy']['t'] == 'EBS' for nd in spec['nodes'].values()):
+		rep.count('order-kernel:network-with-echelon-base-stock-nodes')
 	fails = simlib.oracle_C04(spec, py['trace'], init)
 	diffs = []
 	prev = init
